@@ -150,7 +150,7 @@ def run(ctx):
         # families together) and to depth 4 (per group of families)
         ctx.model("MC_Containers", "MC_Containers_thorough.cfg", timeout=6000)
         ctx.model("MC_Containers", "MC_Containers_quick.cfg", timeout=6000)
-        for i in range(4):
+        for i in range(5):
             ctx.model("MC_Containers", "MC_Containers_thorough_d4_%d.cfg" % i, timeout=12000)
     # ... and must find each shipped rule violating the property (non-vacuity)
     if not scratch:
@@ -165,7 +165,7 @@ def run(ctx):
     # 2b. deeper histories of narrow operation families around history-dependent hidden state (import from a foreign
     #     namespace ; namespace change of the container ; import from the same foreign namespace again; and the
     #     data set / matrix analogue), every transition replayed as well
-    for fam in ("L", "D"):
+    for fam in ("L", "D", "M"):
         fc, fe = graph_cases(ctx, "MC_Containers_focus%s_%s.cfg" % (fam, "quick" if quick else "thorough"), ctx.seed + ord(fam))
         cases += fc
         nedges += fe
